@@ -10,6 +10,7 @@ import z3
 
 from ..engine.prove import Session
 from ..engine import arrays as A, values as V
+from ..engine import symex as sx
 from ..engine.values import SReal
 from ..engine.ufun import ArrayUF
 from ..engine.lmfit_model import sym_parameters
@@ -201,10 +202,12 @@ def _mda_common(S, st, which):
         if which == "modeling_wrapper":
             mk = I.lookup_qual(f"{MOD}:get_default_modeling_wrapper")
             f = I.call(mk, [gv], {})
+            st["wrapper"] = f
             return f, [params, delta], {}
         if which == "residuals_wrapper":
             mk = I.lookup_qual(f"{MOD}:get_default_residuals_wrapper")
             f = I.call(mk, [gv], {})
+            st["wrapper"] = f
             force = A.new_array_input(I, "force", length=delta.length)
             W = z3.Real("W")
             I.assume(W >= 0)
@@ -236,6 +239,23 @@ def _mda_common(S, st, which):
         val = res.at(k)
         S.ensure("shape", res.len_term() == n)
         S.ensure("frame.delta", not any(m is d for m in I.mutations))
+        w = st.get("wrapper")
+        if w is not None and getattr(w, "closure", None) is not None:
+            # the wrapper is a function of its argument VALUES: state it keeps between calls must not alias the
+            # caller's array, the parameters or the array it returned (an identity-keyed memo makes the force depend
+            # on earlier calls and on later in-place edits; a memo of copies would be invisible and is not flagged)
+            def held(v):
+                if isinstance(v, sx.SDict):
+                    return [e[1] for e in v.d.values()]
+                if isinstance(v, (list, tuple)):
+                    return list(v)
+                return [v]
+            cells = [v for v in w.closure.vars.values() if isinstance(v, (list, sx.SDict, sx.Obj, A.SArray))]
+            aliased = [type(x).__name__ for v in cells
+                       if any(m is v or (isinstance(m, tuple) and m[0] is v) for m in I.mutations)
+                       for x in held(v) if x is d or x is res or x is st["params"]]
+            S.ensure("wrapper_keeps_no_reference_to_arguments_or_result", not aliased,
+                     case={"remembered_between_calls": aliased})
         S.ensure("frame.params", not any(isinstance(m, tuple) and getattr(m[0], "cls", None) is I.lmfit["Parameter"]
                                          for m in I.mutations))
         if which in ("mda", "modeling_wrapper"):
